@@ -555,6 +555,25 @@ Section Decoder.
                 end
       end.
 
+    (* one iteration of the outer loop after the end test: read T, read L, dispatch *)
+    Definition pstep (m : model) (ic : bool) (sp : Z) (s : pst) (p : Z) (r : R) : rres R (pst * Z) :=
+      match rd_tlnum r with
+      | TLPanic w => RPanic w
+      | TL t ok1 r1 =>
+        if negb ok1 then RErr E_EOF r1 else
+        match rd_tlnum r1 with
+        | TLPanic w => RPanic w
+        | TL l ok2 r2 =>
+          if negb ok2 then RErr E_EOF r2 else
+          if ordered m then oloop (S (length (flds m))) m ic t l sp s p r2
+          else match ustep m ic t l sp s r2 with
+               | ROk s' r' => ROk (s', p) r'
+               | RErr e r' => RErr e r'
+               | RPanic w => RPanic w
+               end
+        end
+      end.
+
     (* the outer `for { startPos = Pos(); if startPos >= Length() break; read T; read L; ... }` *)
     Fixpoint ploop (k : nat) (m : model) (ic : bool) (s : pst) (p : Z) (r : R) : res parse_out :=
       match k with
@@ -571,27 +590,10 @@ Section Decoder.
             | Panic w => Panic w
             end
           else
-            match rd_tlnum r with
-            | TLPanic w => Panic w
-            | TL t ok1 r1 =>
-              if negb ok1 then Err E_EOF else
-              match rd_tlnum r1 with
-              | TLPanic w => Panic w
-              | TL l ok2 r2 =>
-                if negb ok2 then Err E_EOF else
-                if ordered m then
-                  match oloop (S (length (flds m))) m ic t l sp s p r2 with
-                  | ROk (s', p') r' => ploop k' m ic s' p' r'
-                  | RErr e _ => Err e
-                  | RPanic w => Panic w
-                  end
-                else
-                  match ustep m ic t l sp s r2 with
-                  | ROk s' r' => ploop k' m ic s' p r'
-                  | RErr e _ => Err e
-                  | RPanic w => Panic w
-                  end
-              end
+            match pstep m ic sp s p r with
+            | ROk (s', p') r' => ploop k' m ic s' p' r'
+            | RErr e _ => Err e
+            | RPanic w => Panic w
             end
         end
       end.
